@@ -2,6 +2,8 @@ import FlVerif.Gen.Tables
 import FlVerif.Gen.HedgeGen
 import FlVerif.Lemmas.Antecedent
 import FlVerif.Lemmas.CodeLoadAnte
+import FlVerif.Lemmas.CodeDegree
+import FlVerif.Lemmas.CodeDegreeAggr
 
 /-! # C06 — Rule antecedents mean what the rule grammar says
 
@@ -39,6 +41,62 @@ theorem termless_variable_not_recognised :
     antecedentLoadPostfix ⟨[⟨"A", false, true, []⟩], ["any"]⟩ ["A", "is", "any"] = .error .syntax ∧
     antecedentLoadPostfix ⟨[⟨"A", false, true, ["t"]⟩], ["any"]⟩ ["A", "is", "any"] = .ok (.prop "A" ["any"] none) := by
   decide
+
+/-! ## the evaluation of a loaded antecedent is the one of the source -/
+
+/-- **Tie A (code → model).**  `Gen.Code.Antecedent_activation_degree` is regenerated from the source of
+    `Antecedent.activation_degree` on every run (`fv/pylean.py`: a recursion on a fuel bound - the height of the tree -
+    over expression objects; a variable object is its name, read through the evaluation context `c` of the model and
+    through `hasTerms`, Python's truth value of a variable object, `Variable.__len__`).  For every context and every
+    loaded antecedent `a` (the call `activation_degree(conjunction, disjunction)` of `Rule.activate_with`: `node` is
+    `None`, the tree is `self.expression`): **if every variable of the tree has a term**, the code raises the exception
+    class the model `Op.degree` predicts (`ValueError`: a missing operator, an unknown operator name, a missing term) and
+    otherwise returns the degree of the model - in particular the fuel bound is never exhausted; **if some variable has
+    lost its terms** since the rule was loaded, the code raises `ValueError` (`if not node.variable`, even when the
+    variable is disabled), which the model does not describe.  Second part: an antecedent that is not loaded raises
+    `RuntimeError`.  Third part: objects `Antecedent.load` never builds - a proposition without a variable, an operator
+    with a missing operand - raise `ValueError`. -/
+theorem code_activationDegree (c : DegCtx ℚ) (hasTerms : String → Bool) :
+    (∀ a : ANode,
+      if (Py.Deg.varsOf a).all hasTerms then
+        match degree c a with
+        | .error k =>
+          Gen.Code.Antecedent_activation_degree.run c hasTerms (Py.Deg.ofANode a) c.conj c.disj .none {} = .error k.toPy
+        | .ok d =>
+          ∃ σ, Gen.Code.Antecedent_activation_degree.run c hasTerms (Py.Deg.ofANode a) c.conj c.disj .none {} = .ok σ ∧
+            σ.ret = some d
+      else Gen.Code.Antecedent_activation_degree.run c hasTerms (Py.Deg.ofANode a) c.conj c.disj .none {} = .error .value) ∧
+    (∀ cj dj, Gen.Code.Antecedent_activation_degree.run c hasTerms .none cj dj .none {} = .error .runtime) ∧
+    (∀ e cj dj,
+      (∀ hs t, Gen.Code.Antecedent_activation_degree.run c hasTerms e cj dj (.prop ⟨none, hs, t⟩) {} = .error .value) ∧
+      (∀ n r, Gen.Code.Antecedent_activation_degree.run c hasTerms e cj dj (.op n .none r) {} = .error .value) ∧
+      (∀ n l, Gen.Code.Antecedent_activation_degree.run c hasTerms e cj dj (.op n l .none) {} = .error .value)) :=
+  ⟨Op.code_activationDegree_loaded c hasTerms, Op.code_activationDegree_notLoaded c hasTerms,
+   Op.code_activationDegree_defects c hasTerms⟩
+
+/-- what the tie found: a variable that has no terms any more when the rule is evaluated (they were removed after
+    `Rule.load`) makes `activation_degree` raise `ValueError` - also when the variable is disabled, where the model
+    (which has no notion of "the variable object is false") returns 0 -/
+theorem termless_variable_raises (c : DegCtx ℚ) (v : String) (hs : List String) (t : Option String)
+    (he : c.enabled v = false) :
+    degree c (.prop v hs t) = .ok (.fin 0) ∧
+    Gen.Code.Antecedent_activation_degree.run c (fun _ => false) (Py.Deg.ofANode (.prop v hs t)) c.conj c.disj .none {}
+      = .error .value := by
+  refine ⟨by simp [degree, he], ?_⟩
+  have h := (code_activationDegree c (fun _ => false)).1 (.prop v hs t)
+  simpa [Py.Deg.varsOf] using h
+
+/-- **Tie A (code → model).**  `Gen.Code.Aggregated_activation_degree` is regenerated from the source of
+    `Aggregated.activation_degree`; its callee `grouped_terms` is the translation tied in C10 (`C10.code_groupedTerms`).
+    For every aggregation operator (or none: `UnboundedSum`), every list of activated terms - the objects
+    `Activated(tᵢ, dᵢ, …)`, whose `degree` setter stores `nan_to_num(dᵢ)` - and every term: the method never raises and
+    returns the aggregated degree of the model `Op.aggregatedDegree` on the raw degrees (0 for a term that was never
+    activated). -/
+theorem code_aggregatedDegree (agg : Option (X ℚ → X ℚ → X ℚ)) (raw : List (Op.Weighted.Act String ℚ))
+    (t : Op.Weighted.WTerm String ℚ) :
+    ∃ σ, Gen.Code.Aggregated_activation_degree.run agg (raw.map (fun a => (a.1, Op.Weighted.setDegree a.2))) t {} = .ok σ ∧
+      σ.ret = some (aggregatedDegree (Op.Weighted.aggregationOr agg) (raw.map (fun a => (a.1.name, a.2))) t.name) :=
+  Op.code_aggregatedDegree agg raw t
 
 /-! ## grammar: every writing of every antecedent loads to that antecedent -/
 
